@@ -107,3 +107,27 @@ impl rand_core::RngCore for EnumRng {
     fn fill_bytes(&mut self, _dest: &mut [u8]) { unimplemented!() }
     fn try_fill_bytes(&mut self, _dest: &mut [u8]) -> core::result::Result<(), rand_core::Error> { unimplemented!() }
 }
+
+/// RNG model "SliceRng": like EnumRng, for code that consumes a draw in 3-bit slices
+/// (JoinChannels): every 3-bit slice of the n-th draw equals (start + n) mod 8, so eight
+/// consecutive draws present every residue in every slice position.
+pub(crate) struct SliceRng {
+    pub next: u32,
+    pub draws: u32,
+    pub max: u32,
+}
+impl SliceRng {
+    pub(crate) fn new(max: u32) -> Self { Self { next: kani::any(), draws: 0, max } }
+}
+impl rand_core::RngCore for SliceRng {
+    fn next_u32(&mut self) -> u32 {
+        assert!(self.draws < self.max, "C04/C09: channel selection does not terminate (draw budget exhausted on an enumerating RNG)");
+        self.draws += 1;
+        let c = self.next & 7;
+        self.next = self.next.wrapping_add(1);
+        c.wrapping_mul(0x4924_9249u32)
+    }
+    fn next_u64(&mut self) -> u64 { self.next_u32() as u64 }
+    fn fill_bytes(&mut self, _dest: &mut [u8]) { unimplemented!() }
+    fn try_fill_bytes(&mut self, _dest: &mut [u8]) -> core::result::Result<(), rand_core::Error> { unimplemented!() }
+}
